@@ -159,6 +159,16 @@ check(
     "DESIGN.md 4/C10",
 )
 
+check(
+    "C06",
+    "other",
+    "ownership bounded model checking of the final mypyc IR: for every function of the mypyc test-data programs that build with the IR fixture (quick: 13 files, ~1100 functions; thorough: all irbuild/run/lowering/opt files), the FuncIR produced by the real compile_scc_to_ir pipeline is encoded in passive form over its CFG with loops peeled twice (per value: owned-reference count and error flag, ITE-merged; IS_ERROR branches tied to error flags; all other branch outcomes and op error flags free) and z3 discharges, per return and per decrement, that every value is released exactly once on every path incl. every exceptional exit and never over-released. Static half only.",
+    "trusted: z3; op ownership metadata (stolen/is_borrowed/error_kind/is_xdec) and its faithful emission as C; three stated modelling rules (error value transfers nothing, unborrow hands over the aggregate, slot release before set_mem); loops peeled twice; dynamic leak observation, use-after-release of borrowed values and always-defined attributes outside",
+    "bounded model checking of compiler IR with z3 (passive form, all paths and error flags)",
+    "DESIGN.md 4/C06",
+    engine="mypycir",
+)
+
 ALL = [f"C{i:02d}" for i in range(1, 21)]
 
 
@@ -198,6 +208,7 @@ def main():
         },
         "engines": [
             {"name": "llvm2smt", "path": "vf/llvm2smt.py", "serves_properties": sorted(p for p, c in CHECKS.items() if "llvm2smt" in c["engine"]), "kind_free_text": "clang -O1 -emit-llvm of the real lib-rt C sources, loop-free functions translated to z3 (bit-vector and integer domains), stubs for slow paths, no-UB obligations from nsw/nuw/shift/division"},
+            {"name": "mypycir", "path": "vf/mypycir.py + vf/ownership.py", "serves_properties": sorted(p for p, c in CHECKS.items() if "mypycir" in c["engine"]), "kind_free_text": "final mypyc FuncIR from the real compile_scc_to_ir pipeline; ownership BMC in passive form over the loop-peeled CFG (z3)"},
             {"name": "symx", "path": "vf/symx.py", "serves_properties": sorted(p for p, c in CHECKS.items() if "symx" in c["engine"]), "kind_free_text": "decision-replay symbolic executor on z3: real Python functions re-read from /repo, builtins re-pointed at proxy-aware shims by AST rewrite, one re-execution per feasible path"},
         ],
         "checks": checks,
